@@ -318,6 +318,89 @@ def colliding_op_families() -> list[tuple[list[Any], list[str], list[Any]]]:
     return out
 
 
+_CLASSES: dict[str, Any] = {}
+
+
+def attr_classes() -> dict[str, Any]:
+    """Registered attribute classes: by number of parameters / Data, and by `name` (several classes may share one)."""
+    if _CLASSES:
+        return _CLASSES
+    from xdsl.dialects import get_all_dialects
+    from xdsl.ir import Data, ParametrizedAttribute
+
+    by_arity: dict[int, list[type]] = {}
+    data: list[type] = []
+    by_name: dict[str, list[type]] = {}
+    for _n, f in get_all_dialects().items():
+        try:
+            d = f()
+        except Exception:  # noqa: BLE001
+            continue
+        for c in d.attributes:
+            by_name.setdefault(getattr(c, "name", ""), []).append(c)
+            if issubclass(c, ParametrizedAttribute):
+                try:
+                    k = len(c.get_irdl_definition().parameters)
+                except Exception:  # noqa: BLE001
+                    continue
+                by_arity.setdefault(k, []).append(c)
+            elif issubclass(c, Data):
+                data.append(c)
+    _CLASSES.update({"arity": by_arity, "data": data, "name": by_name})
+    return _CLASSES
+
+
+def class_mutants(rng, a: Any, data_classes_by_payload: dict[type, list[type]] | None = None) -> list[Any]:
+    """The same parameters under another attribute class (first the classes registered under the same name,
+    e.g. a type and an attribute both called emitc.opaque): a different class is a different value."""
+    from xdsl.ir import Data, ParametrizedAttribute
+
+    cl = attr_classes()
+    out = []
+    try:
+        if isinstance(a, ParametrizedAttribute):
+            same_name = [c for c in cl["name"].get(type(a).name, []) if c is not type(a)]
+            others = [c for c in cl["arity"].get(len(a.parameters), []) if c is not type(a)]
+            for c in same_name[:2] + ([rng.choice(others)] if others else []):
+                out.append(c.new(a.parameters))
+        elif isinstance(a, Data) and data_classes_by_payload:
+            # only Data classes that are seen to carry this kind of payload (IntAttr <-> other int carriers, ...)
+            others = [c for c in data_classes_by_payload.get(type(a.data), []) if c is not type(a)]
+            if others:
+                out.append(rng.choice(others).new(a.data))
+    except Exception:  # noqa: BLE001
+        pass
+    return out
+
+
+def same_name_families() -> list[tuple[list[Any], list[str]]]:
+    """For every attribute name registered for several classes (a type and an attribute called emitc.opaque, ...) and for a
+    sample of class pairs of equal arity: the same parameter tuple under both classes - two different values."""
+    from xdsl.dialects import builtin as b
+    from xdsl.ir import ParametrizedAttribute
+
+    cl = attr_classes()
+    fillers = [b.StringAttr("foo"), b.IntAttr(1), b.i32, b.ArrayAttr([]), b.UnitAttr()]
+    out = []
+    groups = [g for g in cl["name"].values() if len(g) > 1]
+    for k, lst in cl["arity"].items():
+        groups += [lst[i:i + 6] for i in range(0, len(lst), 6)]
+    for g in groups:
+        pa = [c for c in g if issubclass(c, ParametrizedAttribute)]
+        for f in fillers[:2]:
+            members, labels = [], []
+            for c in pa:
+                try:
+                    k = len(c.get_irdl_definition().parameters)
+                    members += [c.new((f,) * k), c.new((f,) * k)]
+                    labels += [f"{c.__name__}.new({k} x {f})"] * 2
+                except Exception:  # noqa: BLE001
+                    continue
+            if len(members) >= 4:
+                out.append((members[:12], labels[:12]))
+    return out
+
+
 def mutants(rng, a: Any, pool: list[Any]) -> list[Any]:
     """Single-point payload mutations of a: the same class with one parameter (or the data) replaced."""
     from xdsl.ir import Data, ParametrizedAttribute
@@ -515,14 +598,22 @@ def run(ctx: Ctx):
     for a in pool:
         sub_attrs(a, subpool)
     families: list[tuple[list[Any], list[str]]] = []
+    from xdsl.ir import Data as _Data
+
+    data_by_payload: dict[type, list[type]] = {}
+    for x in subpool:
+        if isinstance(x, _Data) and type(x) not in data_by_payload.setdefault(type(x.data), []):
+            data_by_payload[type(x.data)].append(type(x))
     # (a) every attribute with its twin, two mutants and three others
     everything = gen + corp
     for a, twin, label in everything:
         ms = mutants(rng, a, subpool)[:2]
+        cms = class_mutants(rng, a, data_by_payload)
         others = [rng.choice(everything)[0] for _ in range(3)]
-        members = [a, twin] + ms + others
-        labels = [label, label + " (twin)"] + [label + " (mutant)"] * len(ms) + ["other"] * 3
+        members = [a, twin] + ms + cms + others
+        labels = [label, label + " (twin)"] + [label + " (mutant)"] * len(ms) + [label + " (same parameters, other class)"] * len(cms) + ["other"] * 3
         families.append((members, labels))
+    families += same_name_families()
     # (b) all generated float-carrying attributes of one class against each other (signed zeros, NaN payloads)
     by_cls: dict[type, list[tuple[Any, str]]] = {}
     for a, twin, label in gen:
